@@ -707,14 +707,16 @@ pub struct GenCfg {
     /// classic reads atoms untyped: an integer literal whose bytes spell an operator keyword or a
     /// name is that keyword/name there, so such integers are not generated for the classic dialect
     pub classic_ints: bool,
+    /// conditionals (if, all/any, recursive templates) may be generated
+    pub allow_if: bool,
 }
 
 impl GenCfg {
     pub fn modern() -> GenCfg {
-        GenCfg { max_helpers: 5, max_depth: 4, max_params: 6, allow_macros: true, allow_lambda: true, allow_let: true, allow_rest: true, allow_at: true, allow_nested_mod: true, allow_zero_led: true, allow_raise: true, heavy_ops: true, avoid_known: true, classic_ints: false }
+        GenCfg { max_helpers: 5, max_depth: 4, max_params: 6, allow_macros: true, allow_lambda: true, allow_let: true, allow_rest: true, allow_at: true, allow_nested_mod: true, allow_zero_led: true, allow_raise: true, heavy_ops: true, avoid_known: true, classic_ints: false, allow_if: true }
     }
     pub fn classic() -> GenCfg {
-        GenCfg { max_helpers: 5, max_depth: 4, max_params: 6, allow_macros: true, allow_lambda: false, allow_let: false, allow_rest: false, allow_at: false, allow_nested_mod: false, allow_zero_led: true, allow_raise: true, heavy_ops: true, avoid_known: true, classic_ints: false }
+        GenCfg { max_helpers: 5, max_depth: 4, max_params: 6, allow_macros: true, allow_lambda: false, allow_let: false, allow_rest: false, allow_at: false, allow_nested_mod: false, allow_zero_led: true, allow_raise: true, heavy_ops: true, avoid_known: true, classic_ints: false, allow_if: true }
     }
 }
 
@@ -851,6 +853,11 @@ impl<'a> Gen<'a> {
                 // first character from a set no generated identifier starts with, and never a digit,
                 // sign or blank (some paths re-read atoms): a string can then never alias a name
                 b[0] = b"bcdeghjnoqrstuwxyz"[self.rng.below(18)];
+                // classic reads a quoted string that spells a keyword (q, c, r, x, qq, not, …) as that keyword (atoms are
+                // untyped there: language design): a word-like string gets a character no keyword contains
+                if b.iter().all(|c| c.is_ascii_alphanumeric() || *c == b'_') {
+                    b.push(b'!');
+                }
                 Expr::Lit(Lit::Str(b, if self.rng.chance(1, 3) { b'\'' } else { b'"' }))
             }
             4 => Expr::Lit(Lit::Hex(self.rng.bytes(32))),
@@ -913,7 +920,7 @@ impl<'a> Gen<'a> {
         }
         // structural choices common to all types
         let roll = self.rng.below(100);
-        if roll < 12 {
+        if roll < 12 && self.cfg.allow_if {
             let c = self.gen_cond(depth - 1, scope);
             let a = self.gen_expr(t, depth - 1, scope);
             let b = self.gen_expr(t, depth - 1, scope);
@@ -1408,7 +1415,7 @@ impl<'a> Gen<'a> {
         let ret = *self.rng.pick(&[Ty::Int, Ty::Int, Ty::Int, Ty::Bytes, Ty::List]);
         let name = format!("{}_{}", if inline { "inl" } else { "fun" }, idx);
         // a family of structurally recursive templates (non-inline only)
-        if !inline && self.rng.chance(1, 4) {
+        if !inline && self.cfg.allow_if && self.rng.chance(1, 4) {
             let l = format!("L{idx}");
             let acc = format!("ACC{idx}");
             match self.rng.below(3) {
